@@ -17,9 +17,9 @@ WRAPPER = "aiomysensors.model.protocol.protocol_20.handle_missing_node_child"
 
 def run(ctx: Ctx, chk) -> None:
     chk.assume("A1", "A3")
-    episode1(ctx, chk)
-    rearm1(ctx, chk)
-    cover1(ctx, chk)
+    chk.run_rule(episode1, ctx)
+    chk.run_rule(rearm1, ctx)
+    chk.run_rule(cover1, ctx)
 
 
 def _wrapper(ctx: Ctx) -> FuncInfo:
@@ -225,7 +225,7 @@ def cover1(ctx: Ctx, chk) -> None:
                     chk.refute(rule, f"{name}::wrapped-in-1.x", f"{name} is wrapped by handle_missing_node_child under protocol {V}: presentation requests do not exist before 2.0", cal.chain()[-1].func.where, version=V)
                 else:
                     chk.ok(rule, key, "not wrapped (1.x)", cal.chain()[-1].func.where, sample=False)
-    chk.floor(rule, "handler-table cells", n, 60)
+    chk.floor(rule, "handler-table cells", n, 40)
     # 1.x: no reachable construction of a presentation request
     for V in ctx.versions:
         if V.startswith("2."):
